@@ -28,7 +28,7 @@ def isOp : Ev → Bool | .op _ => true | _ => false
 /-- evidence that this endpoint is closing or closed -/
 def closingEvidence (e : Ev) : Bool := isClose e || isStreamClosed e || isNotify e || isLocalCloseOp e
 
-/-- no asynchronous on_message has ever been started: every inbound frame is processed on arrival -/
+/-- no asynchronous on_message has ever been started (kept for reference; the clauses no longer use it) -/
 def neverBlocked (h : List Ev) : Bool := !h.any isAsyncDataOp
 
 /-- what the peer's close frame said: `(code, reason)`; the reason is dropped when it is not UTF-8 -/
@@ -44,7 +44,7 @@ def echoPayload (code : Option Nat) : Bytes :=
   | some c => [c / 256, c % 256]
 
 /-- what is known about the peer's close: nothing yet, the transport went down first, or its close frame
-arrived while the transport was up (`wellFormed` = its reason, if any, is valid UTF-8; a malformed close
+was received while the transport was up (`wellFormed` = its reason, if any, is valid UTF-8; a malformed close
 frame fails the connection and need not be answered). -/
 inductive Peer
   | undecided
@@ -52,16 +52,61 @@ inductive Peer
   | got (code : Option Nat) (reason : Option Bytes) (wellFormed : Bool)
   deriving DecidableEq, Repr
 
-def peerOf : List Ev → Peer
-  | [] => .undecided
-  | e :: h =>
-    match peerOf h with
-    | .undecided =>
-      match e with
-      | .op (.recvClose p ok) => .got (decodeClose p ok).1 (decodeClose p ok).2 (p.length ≤ 2 || ok)
-      | .streamClosed => .downFirst
+/-! ### when is a frame "received"?
+
+A WebSocket endpoint reads its inbound frames strictly in order and does not read the next frame while the
+application's `on_message` for the previous message is still running (an asynchronous `on_message` is *in flight* from
+its `onMessage` callback until the `release` event).  A frame that has arrived on the connection is therefore *received*
+only once every message that arrived before it has been handed to `on_message` and none of them is still in flight.
+The observer below reconstructs exactly that from the history (arrival markers `op (recvData a)`, `op (recvClose …)`,
+`op peerDisconnect`, the `onMessage` callbacks, `op release`, `streamClosed`): no internal state of the endpoint is
+consulted. -/
+
+/-- an inbound frame that has arrived and has not been read yet (only messages and close frames matter) -/
+inductive Pend
+  | msg (async : Bool)
+  | close (payload : Bytes) (utf8ok : Bool)
+  deriving DecidableEq, Repr
+
+structure Obs where
+  peer : Peer := .undecided     -- the peer's close, as far as it is settled for good
+  pend : List Pend := []        -- arrived, not yet read (oldest first)
+  inflight : Bool := false      -- an asynchronous on_message has started and has not been released
+  gone : Bool := false          -- the peer's FIN has arrived: nothing arrives after it
+  deriving Repr
+
+/-- the peer's close as of now: settled, or its close frame is the next unread frame and nothing is in flight -/
+def Obs.now (o : Obs) : Peer :=
+  match o.peer with
+  | .undecided =>
+    if o.inflight then .undecided
+    else match o.pend with
+      | .close p ok :: _ => .got (decodeClose p ok).1 (decodeClose p ok).2 (p.length ≤ 2 || ok)
       | _ => .undecided
-    | d => d
+  | d => d
+
+def Obs.upd (o : Obs) : Ev → Obs
+  | .op (.recvData a) => if o.gone then o else { o with pend := o.pend ++ [.msg a] }
+  | .op (.recvClose p ok) => if o.gone then o else { o with pend := o.pend ++ [.close p ok] }
+  | .op .peerDisconnect => { o with gone := true }
+  | .op .release => { o with inflight := false }
+  | .onMessage =>
+    match o.pend with
+    | .msg a :: rest => { o with pend := rest, inflight := a }
+    | _ => o
+  | .streamClosed => { o with peer := match o.now with | .undecided => .downFirst | d => d }
+  | _ => o
+
+def obs : List Ev → Obs
+  | [] => {}
+  | e :: h => (obs h).upd e
+
+/-- an asynchronous on_message is in flight at the end of the history -/
+def inFlight (h : List Ev) : Bool := (obs h).inflight
+
+/-- what the history says about the peer's close: its close frame was received (see above) while the transport was
+up, the transport went down first, or nothing yet -/
+def peerOf (h : List Ev) : Peer := (obs h).now
 
 /-! ### the clauses -/
 
@@ -72,21 +117,21 @@ def oneCloseFrame (e : Ev) (h : List Ev) : Bool := !isClose e || !h.any isClose
 def noDataAfterClose (e : Ev) (h : List Ev) : Bool := !isData e || !h.any isClose
 
 /-- a close frame written after the peer's close frame was received echoes the peer's code
-(with `oneCloseFrame`: the code is echoed unless our own close frame had already been sent) -/
+(with `oneCloseFrame`: the code is echoed unless our own close frame had already been sent).  "Received" is `peerOf`:
+it covers every run, also those with asynchronous on_message calls (a close frame queued behind a message whose
+on_message is still in flight has not been received yet; it is from the moment the handler is released). -/
 def echoesPeerCode (e : Ev) (h : List Ev) : Bool :=
   match e with
   | .closeFrame pl =>
-    if neverBlocked h then
-      match peerOf h with
-      | .got c _ _ => pl == echoPayload c
-      | _ => true
-    else true
+    match peerOf h with
+    | .got c _ _ => pl == echoPayload c
+    | _ => true
   | _ => true
 
 /-- at every step boundary: once the peer's close frame has been received (and we have answered, see
 `bothClosedSendsClose`) the transport is down -/
 def teardownBothClosed (e : Ev) (h : List Ev) : Bool :=
-  if isOp e && neverBlocked h then
+  if isOp e then
     match peerOf h with
     | .got _ _ _ => h.any isStreamClosed
     | _ => true
@@ -99,7 +144,7 @@ def teardownTimeout (e : Ev) (h : List Ev) : Bool :=
 /-- at every step boundary: once the peer's (well-formed) close frame has been received our close frame is on
 the wire -/
 def bothClosedSendsClose (e : Ev) (h : List Ev) : Bool :=
-  if isOp e && neverBlocked h then
+  if isOp e then
     match peerOf h with
     | .got _ _ true => h.any isClose
     | _ => true
@@ -114,15 +159,17 @@ def notifyWhenDown (e : Ev) (h : List Ev) : Bool :=
   | .idle => !h.any isStreamClosed || h.any isNotify
   | _ => true
 
+/-- the same at every step boundary, without needing a probe: transport down and no on_message in flight ⇒ notified -/
+def notifyWhenDownB (e : Ev) (h : List Ev) : Bool :=
+  if isOp e && !inFlight h then !h.any isStreamClosed || h.any isNotify else true
+
 /-- … and it carries the peer's code and reason when a close frame was received (else none) -/
 def notifyCarriesPeerClose (e : Ev) (h : List Ev) : Bool :=
   match e with
   | .notify c r =>
-    if neverBlocked h then
-      match peerOf h with
-      | .got c' r' _ => c == c' && r == r'
-      | _ => c == none && r == none
-    else true
+    match peerOf h with
+    | .got c' r' _ => c == c' && r == r'
+    | _ => c == none && r == none
   | _ => true
 
 /-- writes after closing fail with WebSocketClosedError (never succeed) -/
@@ -137,12 +184,17 @@ def writeAfterCloseFails (e : Ev) (h : List Ev) : Bool :=
 def clauses : List (String × (Ev → List Ev → Bool)) :=
   [("oneCloseFrame", oneCloseFrame), ("noDataAfterClose", noDataAfterClose), ("echoesPeerCode", echoesPeerCode),
    ("teardownBothClosed", teardownBothClosed), ("teardownTimeout", teardownTimeout), ("bothClosedSendsClose", bothClosedSendsClose), ("notifyOnce", notifyOnce),
-   ("notifyWhenDown", notifyWhenDown), ("notifyCarriesPeerClose", notifyCarriesPeerClose),
+   ("notifyWhenDown", notifyWhenDown), ("notifyWhenDownB", notifyWhenDownB), ("notifyCarriesPeerClose", notifyCarriesPeerClose),
    ("writeAfterCloseFails", writeAfterCloseFails)]
 
-/-- names of the clauses violated by a history (newest first) -/
+/-- An observed history always ends at a step boundary (the observer looks after a step has run to completion), so its
+end is judged like one: by a virtual final step marker.  Without it the step-boundary clauses (`teardownBothClosed`,
+`bothClosedSendsClose`, `teardownTimeout`, `notifyWhenDownB`) would say nothing about the last step of a history. -/
+def atEnd (h : List Ev) : List Ev := .op .probe :: h
+
+/-- names of the clauses violated by a history (newest first), its end included -/
 def violated (h : List Ev) : List String :=
-  (clauses.filter (fun c => !forallH c.2 h)).map (·.1)
+  (clauses.filter (fun c => !forallH c.2 (atEnd h))).map (·.1)
 
 /-- judgement on a COMPLETE history taken at quiescence — every timer of this endpoint has fired or was cancelled
 (so the closing timeout, if our close started one, has elapsed) and no on_message is in flight: once our close frame
